@@ -21,6 +21,7 @@ type verifRollWorld struct {
 	// finalizeAnswers (by spec value x) enables a finalize hook that returns the
 	// same children as the sync hook and finalized = finalizeAnswers[x]
 	finalizeAnswers map[string]bool
+	omit            map[string]int // per child name: 1 = the hook leaves it out, 2 = the hook lists null in its place (set by a harness in the middle of a run)
 	requireReady    bool // children must carry status condition Ready=True to count as healthy
 	extraPath       bool // nested mode: revisionHistory.fieldPaths = [spec.nodePool, spec.template] with spec.nodePool never set
 	nullStatus      bool // the hook answers without a status (null)
@@ -57,6 +58,13 @@ func verifRollHook(r *verifRollWorld) *verifHook {
 		}
 		var kids []*unstructured.Unstructured
 		for _, n := range want {
+			if r.omit[n] == 1 {
+				continue
+			}
+			if r.omit[n] == 2 {
+				kids = append(kids, nil)
+				continue
+			}
 			c := r.child(n, x)
 			if r.nested {
 				c.Object["data"].(map[string]interface{})["g"] = g
